@@ -1090,12 +1090,13 @@ def epochs(x, pad=0):
     '''
     start = ts(edge_rising(x))
     end = ts(edge_falling(x))
-    for s in start:
-        x[s-pad:s] = 1
-    for e in end:
-        x[e:e+pad] = 1
-    start = ts(edge_rising(x))
-    end = ts(edge_falling(x))
+    if pad:
+        for s in start:
+            x[s-pad:s] = 1
+        for e in end:
+            x[e:e+pad] = 1
+        start = ts(edge_rising(x))
+        end = ts(edge_falling(x))
 
     # Handle various boundary conditions where some sort of task-related
     # activity is registered at very beginning or end of experiment.
